@@ -201,11 +201,8 @@ class Harness:
         def pre():
             # a harness that loops for ever (that is what some checks are looking for) must not outlive an orchestrator that
             # is killed from outside: ask the kernel to kill the child when its parent dies (PR_SET_PDEATHSIG = 1, SIGKILL)
-            try:
-                import ctypes
-                ctypes.CDLL("libc.so.6", use_errno=True).prctl(1, 9, 0, 0, 0)
-            except Exception:
-                pass
+            if not COVERAGE:   # (a coverage build writes its profile when it exits by itself)
+                die_with_parent()
             if kb:
                 import resource
                 resource.setrlimit(resource.RLIMIT_STACK, (kb * 1024, kb * 1024))
@@ -448,12 +445,8 @@ def finish(res, level="exploration", min_distinct=2):
 # --------------------------------------------------------------------------- parallel map
 def _worker_init(fn_init, args):
     global _WSTATE
-    try:
-        # a worker (and, through it, its harness processes) must not outlive an orchestrator that is killed from outside
-        import ctypes
-        ctypes.CDLL("libc.so.6", use_errno=True).prctl(1, 9, 0, 0, 0)
-    except Exception:
-        pass
+    # a worker (and, through it, its harness processes) must not outlive an orchestrator that is killed from outside
+    die_with_parent()
     _WSTATE = fn_init(*args) if fn_init else None
 
 
